@@ -136,9 +136,60 @@ def h_get():
     return fn, types
 
 
+def h_fold(order):
+    """RFC 5545 line folding at EVERY position of EVERY content line (CRLF + one blank inserted; unfolding removes exactly
+    that one blank): names with inner blanks (TZID, TZNAME) and all values must come back unchanged.  Line index and
+    fold column are pinned per path; the zone is compared with the one parsed from the unfolded text."""
+    import datetime
+    from dateutil import tz
+    spec = dict(c08.specs("quick")[0], std="Eastern Standard Time", dst="Eastern Daylight Time")
+    tzid = "Test/Eastern Time (US)"
+    text = vtimezone(spec, "swapped" if order else "rrule", tzid=tzid)
+    lines = text.split("\r\n")[:-1]
+    types = dict(li=int, col=int, allcol=bool)
+    maxlen = max(len(ln) for ln in lines)
+    probes = [datetime.datetime(1972, 1, 15, 12), datetime.datetime(1972, 7, 15, 12), datetime.datetime(1975, 11, 1, 12)]
+
+    def fn(ctx, li, col, allcol):
+        ctx.assume(S.within(li, 0, len(lines) - 1))
+        ctx.assume(S.within(col, 1, maxlen - 1))
+        li, col, allcol = ctx.concrete(li), ctx.concrete(col), ctx.concrete(allcol)
+        if not allcol and col >= len(lines[li]):
+            ctx.assume(False)
+        if allcol and li != 0:
+            ctx.assume(False)
+        if ctx.symbolic:
+            return None
+        with ctx.untraced():
+            out = []
+            for j, ln in enumerate(lines):
+                if (allcol or j == li) and col < len(ln):
+                    out += [ln[:col], " " + ln[col:]]
+                else:
+                    out.append(ln)
+            folded = "\r\n".join(out) + "\r\n"
+            key = "fold:%s" % ("all" if allcol else lines[li].split(":")[0].split(";")[0])
+            try:
+                ic = tz.tzical(io.StringIO(folded))
+            except Exception as e:
+                ctx.fail("folded definition (line %d, column %d) raised %s: %s" % (li, col, type(e).__name__, str(e)[:60]), key=key + ":raises")
+            ctx.check(ic.keys() == [tzid], "TZID after unfolding is %r, expected %r (fold at line %d column %d)" % (ic.keys(), tzid, li, col), key=key + ":tzid")
+            z = ic.get()
+            ref = tz.tzical(io.StringIO(text)).get()
+            for p in probes:
+                a, b = p.replace(tzinfo=z), p.replace(tzinfo=ref)
+                ctx.check((a.utcoffset(), a.dst(), a.tzname()) == (b.utcoffset(), b.dst(), b.tzname()),
+                          "folded definition answers %r, the unfolded one %r (fold at line %d column %d)" % ((a.utcoffset(), a.tzname()), (b.utcoffset(), b.tzname()), li, col),
+                          key=key + ":answers")
+            ctx.check(ref.tzname(probes[0]) == spec["std"] and ref.tzname(probes[1]) == spec["dst"], "TZNAME with blanks not preserved", key="fold:names")
+        return None
+    return fn, types
+
+
 def cells(tier):
     q = tier == "quick"
-    cs = [Cell(MF, "h_malformed", {}, budget_s=60), Cell(MF, "h_get", {}, budget_s=60)]
+    cs = [Cell(MF, "h_malformed", {}, budget_s=60), Cell(MF, "h_get", {}, budget_s=60),
+          Cell(MF, "h_fold", dict(order=0), budget_s=150), Cell(MF, "h_fold", dict(order=1), budget_s=150)]
     sp = [s for s in c08.specs(tier) if s.get("dst") and s["start"][0] == "M" and s["end"][0] == "M"
           and P.rule_time(s["start"]) < 86400 and P.rule_time(s["end"]) < 86400]      # 24:00 is not a BYDAY onset on the same weekday
     # the rule forms that expose the known tzstr defects are legitimate VTIMEZONE rules too (onsets are listed explicitly)
@@ -165,6 +216,7 @@ ASSUMPTIONS = [
     "the zone's ten-entry lookup cache is emptied at the start of every path (it would otherwise hold values of another solver context); "
     "within a path the harness queries several instants on the same object, so cache hits and misses both occur",
     "datetimes are timestamp-backed stand-ins (engine/tsdt.py)",
+    "folding cells: one definition whose TZID and TZNAMEs contain blanks, folded at every column of every line (and all lines at a common column), pinned per path, parsed natively and compared with the unfolded text's zone at three instants",
 ]
 OUTSIDE = ["J / n rule forms (not expressible as yearly BYDAY rules)", "instants before the first onset", "definitions with only DAYLIGHT components"]
 
